@@ -56,6 +56,11 @@ CHECKS.update({
  'C14': dict(text='non_colliding_offsets and its closure executed from MIR (robot, limits verdict and collision pass as oracles): the 12 candidates are initial[j -> from_j|to_j], each offered iff within limits and its collision pass reports nothing, '
                   'the pass uses the link poses of that candidate, the own safety table, first-collision mode and marks links below j unmoved; and with that skip set the task list still contains every relevant pair involving a moved body (shared with C10).', design='6/C14'),
 })
+CHECKS.update({
+ 'C15': dict(text='compute_jacobian executed from its generic MIR with the robot and scaled_axis as oracles: column i is exactly the finite difference of the robot forward() at q and q+eps*e_i (translation, and log map of R_i R^-1); '
+                  'the C03 terms of the OPW forward() are differentiated symbolically and the solver decides d t/d joint_i = sigma_i z_i x (t - o_i) and dR/d joint_i R^T = skew(sigma_i z_i) with z_i, o_i from forward_with_joint_poses (all parameters, offsets, sign symbols free); '
+                  'torques = J^T F, velocities = try_inverse(J) w, isometry/vector entry points agree. The O(eps) remainder between the two is Taylor (argued, not solved).', design='6/C15'),
+})
 PENDING = {}
 NA = {}
 def main():
